@@ -131,7 +131,13 @@ pub fn ref_pairs(jar: &[AClass]) -> Vec<(MRef, MRef)> {
 /// no mapping"): the super types are searched whether or not the owner has a class entry
 pub const OWNER_GATE: bool = false;
 
-pub struct Look<'a> { pub m: &'a MMappings, pub from: usize, pub to: usize, pub supers: &'a dyn Fn(&S) -> Option<Vec<S>> }
+pub struct Look<'a> { pub m: &'a MMappings, pub from: usize, pub to: usize, pub supers: &'a dyn Fn(&S) -> Option<Vec<S>>,
+	/// set when a search through the super types came back to a class it was searching the super types of: the documented
+	/// behaviour of the remapper on cyclic inheritance information is an error
+	pub cyclic: std::cell::Cell<bool>,
+	/// (owner, name, descriptor) searched to the end without a hit: a later search of the same key through another path
+	/// need not look there again (keeps the reference linear on stacked diamonds; no influence on any answer)
+	pub failed: std::cell::RefCell<HashSet<(S, S, S)>> }
 impl<'a> Look<'a> {
 	fn class_entry(&self, c: &S) -> Option<&'a MClass> {
 		self.m.classes.iter().rev().find(|k| k.names[self.from].as_ref() == Some(c) && k.names[self.to].is_some())
@@ -155,8 +161,11 @@ impl<'a> Look<'a> {
 		out
 	}
 	pub fn desc(&self, d: &S) -> S { self.desc_with(d, &|c| self.class(c)) }
-	fn method_fail(&self, owner: &S, name: &S, desc: &S, depth: usize) -> Option<(S, S)> {
-		if depth > 64 { return None; }
+	fn method_fail(&self, owner: &S, name: &S, desc: &S, path: &mut Vec<S>) -> Option<(S, S)> {
+		if self.cyclic.get() { return None; }
+		if path.contains(owner) { self.cyclic.set(true); return None; }
+		let memo = (owner.clone(), name.clone(), desc.clone());
+		if self.failed.borrow().contains(&memo) { return None; }
 		let entry = self.class_entry(owner);
 		if let Some(k) = entry {
 			for me in k.methods.iter().rev() {
@@ -167,13 +176,17 @@ impl<'a> Look<'a> {
 				}
 			}
 		} else if OWNER_GATE { return None; }
+		path.push(owner.clone());
 		for s in (self.supers)(owner).unwrap_or_default() {
-			if let Some(r) = self.method_fail(&s, name, desc, depth + 1) { return Some(r); }
+			if let Some(r) = self.method_fail(&s, name, desc, path) { path.pop(); return Some(r); }
+			if self.cyclic.get() { break; }
 		}
+		path.pop();
+		if !self.cyclic.get() { self.failed.borrow_mut().insert(memo); }
 		None
 	}
 	pub fn mref(&self, r: &MRef) -> MRef {
-		let (name, desc) = self.method_fail(&r.class, &r.name, &r.desc, 0).unwrap_or_else(|| (r.name.clone(), self.desc(&r.desc)));
+		let (name, desc) = self.method_fail(&r.class, &r.name, &r.desc, &mut vec![]).unwrap_or_else(|| (r.name.clone(), self.desc(&r.desc)));
 		MRef { class: self.class(&r.class), name, desc }
 	}
 }
@@ -192,12 +205,13 @@ pub fn jar_supers(jars: &[&[AClass]], c: &S) -> Option<Vec<S>> {
 pub struct Expect { pub class: S, pub key: (S, S), pub names: NamesRow, pub alternatives: Vec<NamesRow> }
 
 /// What the produced mappings must contain, and a checker for a produced tree.
-/// Returns the list of deviations (empty = the property holds on this input).
-pub fn check_add(jar: &[AClass], libs: &[Vec<AClass>], cal: &MMappings, maps: &MMappings, got: &MMappings) -> Vec<String> {
+/// Returns the list of deviations (empty = the property holds on this input).  `got` = None: the implementation
+/// returned an error, which is what is expected exactly when one of the inheritance lookups runs into a cycle.
+pub fn check_add(jar: &[AClass], libs: &[Vec<AClass>], cal: &MMappings, maps: &MMappings, got: Option<&MMappings>) -> Vec<String> {
 	let mut jars: Vec<&[AClass]> = vec![jar];
 	for l in libs { jars.push(l); }
 	let sup_off = |c: &S| jar_supers(&jars, c);
-	let lc = Look { m: cal, from: 0, to: 1, supers: &sup_off };
+	let lc = Look { m: cal, from: 0, to: 1, supers: &sup_off, cyclic: Default::default(), failed: Default::default() };
 	// the provider re-expressed in intermediary names
 	let mut inter: Vec<Vec<(S, Vec<S>)>> = vec![];
 	for j in &jars {
@@ -211,7 +225,7 @@ pub fn check_add(jar: &[AClass], libs: &[Vec<AClass>], cal: &MMappings, maps: &M
 		inter.push(p);
 	}
 	let sup_int = |c: &S| inter.iter().find_map(|p| p.iter().find(|e| &e.0 == c).map(|e| e.1.clone()));
-	let ln = Look { m: maps, from: 0, to: 1, supers: &sup_int };
+	let ln = Look { m: maps, from: 0, to: 1, supers: &sup_int, cyclic: Default::default(), failed: Default::default() };
 
 	// expected entries, the last bridge of a (class, delegate) winning
 	let mut pairs: Vec<(MRef, MRef)> = vec![];
@@ -228,6 +242,13 @@ pub fn check_add(jar: &[AClass], libs: &[Vec<AClass>], cal: &MMappings, maps: &M
 	}
 
 	let mut dev = vec![];
+	let cyclic = lc.cyclic.get() || ln.cyclic.get();
+	let got = match (got, cyclic) {
+		(None, true) => return dev,
+		(None, false) => { dev.push("returned an error although every inheritance lookup of a bridge / delegate ends".to_string()); return dev; }
+		(Some(_), true) => { dev.push("returned mappings although a lookup through the super types of a bridge / delegate runs into cyclic inheritance (documented: an error)".to_string()); return dev; }
+		(Some(g), false) => g,
+	};
 	if got.ns != maps.ns || got.doc != maps.doc { dev.push("namespaces or top-level javadoc changed".to_string()); }
 	if got.classes.len() != maps.classes.len() { dev.push(format!("{} classes became {}", maps.classes.len(), got.classes.len())); return dev; }
 	// The property is about which entries exist, not about their iteration order: classes are matched by
